@@ -155,6 +155,7 @@ def plan(prop):
         for size in ((1, 2) if Q else (1, 2, 3)):
             obs.append(('vrp-pragmatic', lambda ctx, size=size: po.ob_location_index_rule(ctx, size)))
         obs.append(('vrp-pragmatic', lambda ctx: po.ob_id_rules(ctx)))
+        obs.append(('vrp-pragmatic', lambda ctx: po.ob_relation_rules(ctx)))
         # totality beyond the inline load size (8 dimensions): the recorded known finding
         obs.append(('vrp-pragmatic', lambda ctx: po.ob_job_rules(ctx, 'pd', 9)))
     if prop == 'C16':
